@@ -313,6 +313,15 @@ inline void oracle_C07(An &a, vf::Stats &st, size_t cap = 400) {
 // ---------------------------------------------------------------------------------------------------------------- C08
 inline void oracle_C08(An &a, vf::Stats &st) {
   st.add("cases");
+  if (a.macros) {
+    // the same sources compiled just before from other files and lines (every file that defines a macro is renamed and
+    // shifted down two lines): whatever is remembered from that compilation must not leak into the tables of this one
+    Files sib; std::map<std::string, std::string> ren;
+    for (auto &f : a.files) if (f.first != a.main && f.second.find("DEFINE") != std::string::npos) ren[f.first] = f.first + "_other";
+    for (auto &f : a.files) { std::string body = f.second; for (auto &r : ren) { size_t p; while ((p = body.find("\"" + r.first + "\"")) != std::string::npos) body.replace(p, r.first.size() + 2, "\"" + r.second + "\""); }
+      if (ren.count(f.first)) sib[ren[f.first]] = "\n\n" + body; else sib[f.first] = (f.first == a.main && body.find("DEFINE") != std::string::npos) ? "\n\n" + body : body; }
+    Theo::CodegenResult other = Theo::compile(sib, a.main); (void)other; st.add("compiled_after_a_sibling_compilation");
+  }
   a.compile();
   if (!a.cr.generated_correctly) { st.add("not_compiled"); return; }
   const Theo::Program &P = a.cr.code; auto S = [](long long x) { return std::to_string(x); };
